@@ -230,6 +230,15 @@ def main(argv):
             print('  selftest ' + line)
         if selftest_summary['failed']:
             print('CHECKER-SELFTEST: %d corpus expectation(s) of %s not met on this tree (a defect of the checker, not a property violation)' % (selftest_summary['failed'], pid))
+        # (e) the independently written patch sets: seeded breaking changes must still be caught, benign refactors must stay silent
+        import patchsets
+        ps = patchsets.run_for(pid, jobs=int(os.environ.get('VERIF_JOBS', '8')))
+        for line in ps['lines']:
+            print('  patchset ' + line)
+        if ps['failed']:
+            print('CHECKER-SELFTEST: %d patch-set expectation(s) of %s not met on this tree (a defect of the checker, not a property violation)' % (ps['failed'], pid))
+        selftest_summary['patchsets'] = {k: v for k, v in ps.items() if k != 'lines'}
+        selftest_summary['patchset_entries'] = ps['lines']
     known, fixed = read_known()
     viol = [o for o in obs if o.violated]
     # de-duplicate by key across configurations
@@ -335,7 +344,8 @@ def write_evidence(pid, tier, seed, obs, viol, listed, mod, ctxs, wall, selftest
         'violations': len(viol),
     }
     if selftest_summary is not None:
-        ev['coverage']['selftest'] = {k: v for k, v in selftest_summary.items() if k != 'lines'}
+        ev['coverage']['selftest'] = {k: v for k, v in selftest_summary.items() if k not in ('lines', 'patchset_entries')}
+        ev['coverage']['selftest']['patchset_entries'] = selftest_summary.get('patchset_entries', [])
         ev['coverage']['selftest']['entries'] = selftest_summary['lines']
     json.dump(ev, open(os.path.join(EVID, '%s.json' % pid), 'w'), indent=1, sort_keys=False)
 
